@@ -331,6 +331,49 @@ def native_layer_args(run):
             run.violation("nn.%s.__init__.default_stride_is_kernel" % cls.__name__, "default stride is %s for kernel 3" % (st,), key={"layer": cls.__name__}, replay={})
 
 
+def float_part(run, seed):
+    """bounded, native ("any operand values", "to rounding"): batch statistics on operands whose mean is far from zero relative to their spread. The proof
+    over the reals cannot tell a two-pass variance from E[x^2]-E[x]^2; in floats the latter cancels catastrophically. Reference: longdouble two-pass on the
+    exact operand values; tolerance 64 ulp of the operand dtype scaled by the conditioning |mean|/std of the normalisation itself."""
+    import synapgrad.nn as nn
+    import synapgrad.nn.functional as NF
+    from synapgrad.tensor import Tensor
+    rng = np.random.RandomState(seed + 11)
+    for dt, offsets in ((np.float32, (0.0, 30.0, 300.0)), (np.float64, (0.0, 1e4, 1e6))):
+        eps_dt = float(np.finfo(dt).eps)
+        for shape in [(8, 3), (4, 2, 5), (3, 2, 2, 3)]:
+            for off in offsets:
+                for mode in ("train", "eval-untracked", "functional-train"):
+                    x = (rng.randn(*shape) + off * (1 + np.arange(shape[1]).reshape([1, -1] + [1] * (len(shape) - 2)))).astype(dt)
+                    key = {"op": "batch_norm", "mode": mode, "shape": list(shape), "dtype": np.dtype(dt).name, "mean_offset": off}
+                    run.rt(("bn-float", mode, shape, np.dtype(dt).name, off))
+                    try:
+                        with np.errstate(all="ignore"):
+                            if mode == "functional-train":
+                                y = NF.batch_norm(Tensor(x), None, None, None, None, True, 0.1, 1e-5).data
+                            else:
+                                cls = nn.BatchNorm1d if len(shape) <= 3 else nn.BatchNorm2d
+                                L = cls(shape[1], affine=False, track_running_stats=(mode == "train"), dtype=dt)
+                                if mode != "train":
+                                    L.eval()
+                                y = L(Tensor(x)).data
+                    except Exception as e:
+                        run.violation("nn.functional.batch_norm.float_forward_completes", "%s: %s" % (type(e).__name__, e), key=key, replay=key)
+                        continue
+                    xl = x.astype(np.longdouble)
+                    ax = tuple(i for i in range(len(shape)) if i != 1)
+                    m = xl.mean(axis=ax, keepdims=True)
+                    v = ((xl - m) ** 2).mean(axis=ax, keepdims=True)
+                    want = ((xl - m) / np.sqrt(v + np.longdouble(1e-5))).astype(np.float64)
+                    cond = float(np.max(np.abs(m) / np.sqrt(v))) + 1.0
+                    tol = 64 * eps_dt * cond
+                    err = float(np.max(np.abs(np.asarray(y, dtype=np.float64) - want))) if np.all(np.isfinite(y)) else float("inf")
+                    if y.dtype != dt or not err <= tol:
+                        run.violation("nn.functional.batch_norm.float_forward_to_rounding", "%s operands with per-channel mean %g and unit spread: max error %.3g against the two-pass "
+                                      "reference (tolerance %.3g = 64 ulp x conditioning), result dtype %s" % (np.dtype(dt).name, off, err, tol, y.dtype), key=key,
+                                      replay={**key, "x": x.tolist(), "max_abs_error": err, "tolerance": tol})
+
+
 def main(tier="quick", seed=0, procs=None, only=None):
     from ..pyvc.harness import TargetCase
     run = Run("C06", tier, seed, "proof")
@@ -348,6 +391,7 @@ def main(tier="quick", seed=0, procs=None, only=None):
     run_catalogue(run, cs, seed=seed, procs=procs)
     try:
         native_layer_args(run)
+        float_part(run, seed)
     except Exception as e:
-        run.error("native layer-argument part failed", e)
+        run.error("native layer-argument / float part failed", e)
     return run.finish()
